@@ -72,10 +72,53 @@ def bounded(fn, text_len):
         STATE["armed"] = False
 
 
+EXTRA_DEPS = {"thorough": ("atheris",)}
+
+
 def plan(tier, seed):
     if tier == "quick":
         return [{"n_cases": 2600, "mode": "A", "hashseed": i % 3} for i in range(8)]
-    return [{"n_cases": 60000, "mode": "A", "hashseed": i % 4} for i in range(14)]
+    return [{"n_cases": 60000, "mode": "A", "hashseed": i % 4} for i in range(14)] + \
+           [{"kind": "atheris", "seconds": 150, "hashseed": i} for i in range(2)]
+
+
+def run_atheris(spec, ctx):
+    """thorough tier: coverage-guided fuzzing of the scanner in a sub-process (libFuzzer never returns)"""
+    import glob
+    import re
+    import subprocess
+    art = os.path.join(os.environ.get("TMPDIR", "/tmp"), "atheris-artifacts")
+    env = dict(os.environ)
+    env["VERIF_REPO_DIR"] = spec["repo"]
+    case = {"kind": "atheris", "seconds": spec["seconds"]}
+    ctx.begin(case)
+    r = subprocess.run([sys.executable, "-m", "vf.fuzz_c18", art, str(spec["seconds"])], env=env, stdout=subprocess.PIPE,
+                       stderr=subprocess.STDOUT, text=True, timeout=spec["seconds"] * 4 + 300)
+    ctx.end()
+    m = re.search(r"stat::number_of_executed_units:\s*(\d+)", r.stdout)
+    execs = int(m.group(1)) if m else 0
+    ctx.count("atheris_executions", execs)
+    ctx.evaluations += execs
+    crashes = sorted(glob.glob(os.path.join(art, "crash-*")) + glob.glob(os.path.join(art, "timeout-*")))
+    for path in crashes[:5]:
+        with open(path, "rb") as f:
+            data = f.read()
+        text = "".join(ALPHA[b % len(ALPHA)] for b in data)
+        # re-judge the input with the ordinary monitor, so that the witness replays without atheris
+        check_case({"kind": "random", "text": text, "found_by": "atheris"}, ctx)
+    if crashes and not ctx.violations:
+        ctx.error("atheris reported a crash that the monitor does not reproduce: " + r.stdout[-600:])
+    if execs == 0:
+        ctx.error("atheris produced no execution: " + r.stdout[-600:])
+    ctx.nontrivial(case)
+
+
+def run_shard(spec, ctx):
+    if spec.get("kind") == "atheris":
+        run_atheris(spec, ctx)
+    else:
+        from vf import core
+        core.default_run_shard(sys.modules[__name__], spec, ctx)
 
 
 WORD_CHARS = "abcdefgXYZéαß0123456789_-.;!?/#@'\"()<>=+*&%$"
@@ -89,10 +132,16 @@ def readable_as_int(w):
         return False
 
 
+EXOTIC_INNER = "\x0b\x0c\x1c\x1d\x85\u2028\u00a0"      # line / paragraph separators that are not the format's newline
+
+
 def word(rng):
     for _ in range(50):
         k = rng.randint(1, 6)
         w = "".join(rng.choice(WORD_CHARS + "  ") for _ in range(k)).strip()
+        if len(w) >= 2 and rng.random() < 0.08:
+            i = rng.randrange(1, len(w))
+            w = (w[:i] + rng.choice(EXOTIC_INNER) + w[i:]).strip()
         if w and not w.isdigit() and "  " not in w and not readable_as_int(w):
             return w
     return "w"
@@ -287,7 +336,8 @@ def reach(counters, tier, info):
     for name, key, need in [("file round trips", "file_round_trips", 1000 * k),
                             ("file round trips of datasets containing an empty ranking",
                              "file_round_trips_with_empty_ranking", 100 * k),
-                            ("texts parsed", "parsed", 1000 * k), ("texts rejected with ValueError", "rejected", 3000 * k)]:
+                            ("texts parsed", "parsed", 1000 * k), ("texts rejected with ValueError", "rejected", 3000 * k)] + \
+            ([("atheris executions", "atheris_executions", 500000)] if tier == "thorough" else []):
         v = counters.get(key, 0)
         out.append({"name": name, "observed": v, "required": need, "ok": v >= need})
     sites = len([key for key in counters if key.startswith("rejected_at:")])
